@@ -4,13 +4,10 @@
     empty database, so C01's convergence theorem applies. *)
 From Coq Require Import List NArith Bool Arith.
 From Atlas Require Import Base.Bytes Diff.Schema Diff.DiffModel Diff.DiffSqlite Diff.DiffProofs
-  Sqlite.PlanModel Sqlite.EngineModel Sqlite.InspectModel Sqlite.ConvergeDefs Sqlite.ConvergeSupported.
+  Sqlite.PlanModel Sqlite.EngineModel Sqlite.InspectModel Sqlite.ConvergeDefs Sqlite.ConvergeSupported Sqlite.ExportDump.
 Import ListNotations.
 
-(** cmd/atlas/internal/migrate.ChangesToRealm for a client bound to one schema *)
-Definition changes_to_realm (B : xschema) : list schange := map (fun x => AddTable (x_name x)) B.
-(** cmdlog.sqlInspect *)
-Definition plan_dump (B : xschema) : option plan := PlanChanges [] B (changes_to_realm B).
+(** [changes_to_realm], [plan_dump]: Sqlite/ExportDump.v *)
 Definition sql_export_roundtrip (d : db) : option (result db) :=
   match plan_dump (inspect d) with
   | Some p => Some (exec_all empty_db (plan_stmts p))
